@@ -305,6 +305,11 @@ func runC05(r *core.Run) {
 			if p != "PENDING" || q != "PENDING" {
 				viol("in-flight-not-locked", fmt.Sprintf("while the pay call is executing the persisted state is proof=%s quote=%s, expected PENDING/PENDING", p, q))
 			}
+			// an impatient client sends the same melt again while the pay call is executing: refused, and
+			// it must not disturb the request that is running
+			if _, err := env.Melt(t.quote, cashu.Proofs{t.coin}); err == nil {
+				viol("in-flight-second-melt-accepted", "the same melt request was accepted a second time while the pay call is executing")
+			}
 			// several clients look while the pay call is executing: state check, quote poll, state check
 			for i, probe := range []string{"check", "poll", "check"} {
 				if probe == "check" {
